@@ -673,6 +673,10 @@ func (in *interp) opShl(x, k *Val) (*Val, error) {
 		return nil, fmt.Errorf("shift by a non-constant amount")
 	}
 	n := uint(kc.Int64())
+	if c, isC := x.constant(); isC && c.Sign() >= 0 {
+		// a constant word: the shifted value modulo 2^64, exactly what the machine computes
+		return in.constVal(new(big.Int).And(new(big.Int).Lsh(c, n), bigWm1)), nil
+	}
 	hi := new(big.Int).Lsh(x.hi, n)
 	v := in.derived(pScale(x.p, new(big.Int).Lsh(big1, n)), new(big.Int).Lsh(x.lo, n), minBig(hi, bigWm1), &origin{op: "shl", args: []*Val{x}, k: int(n)})
 	if hi.Cmp(bigWm1) > 0 {
